@@ -60,4 +60,8 @@
 /* a C string inside an object, terminated at its last byte at the latest */
 #define SPEC_ERRMSG_TERMINATED(o) ((o)->error_msg[JWT_ERR_LEN - 1] == 0)
 
+/* frame target: exactly the message buffer of an object (NOT
+ * __CPROVER_object_whole, which would be the whole enclosing struct) */
+#define SPEC_ERRMSG_FRAME(o) __CPROVER_object_upto((o)->error_msg, JWT_ERR_LEN)
+
 #endif
